@@ -265,6 +265,28 @@ fn main() {
         }
     }
 
+    // ---- 2e. utf8 literals from a reader: the builder checks the text for bare LFs while streaming it; whether it accepts or
+    //          refuses a text (and what it writes) does not depend on how the source cuts it: every composition of short texts
+    {
+        use pgp::packet::DataMode;
+        for text in ["a\r\nb\r\n\nc", "\r\n\n", "a\rb\r\n\n", "a\r\nb\r\nc", "\n", "a\r\n", "\r\r\n\n", "ab\r\n\r\ncd"] {
+            let data = text.as_bytes().to_vec();
+            let run = |sched: Vec<usize>| -> String { guarded(|| -> Result<Vec<u8>, String> {
+                let mut b = MessageBuilder::from_reader("", SchedReader::new(data.clone(), sched));
+                b.data_mode(DataMode::Utf8).map_err(|e| e.to_string())?;
+                b.to_vec(Rng::new(9)).map_err(|e| e.to_string())
+            }).map(|r| match r { Ok(o) => format!("OK {}", hx(&o)), Err(_) => "ERR".into() }).unwrap_or_else(|p| p) };
+            let reference = run(vec![]);
+            for comp in all_compositions(data.len()) {
+                let r = run(comp.clone());
+                let same = r == reference;
+                if !same || comp.len() <= 2 || comp.len() == data.len() {
+                    cx.out.case("", &[], &["utf8-literal-sched".into(), hx(&data), nums(&comp)], &format!("{} (one read: {})", &r[..r.len().min(40)], &reference[..reference.len().min(40)]), Some(same), "utf8-literal-schedule");
+                }
+            }
+        }
+    }
+
     // ---- 3. the stream encryptors driven by read() with any request sizes (not only read_to_end)
     for sym in [SymmetricKeyAlgorithm::AES128, SymmetricKeyAlgorithm::TripleDES] {
         for n in [0usize, 1, 15, 16, 17, 100] {
